@@ -96,7 +96,31 @@ def rand_mapping(rng, otel=False, allow_root_array=False):
         if otel:
             vt = "array" if n == "child_event_ids" else "string"
         m[n] = rand_field_spec(rng, pool, vt)
+    # two fields looked up in the SAME attribute array through the same value path but under different keys (job_name from
+    # service.name, application_name from service.namespace): only the key value tells them apart
+    import copy as _copy
+
+    def swap_keys(kv):
+        if isinstance(kv, list):
+            return [swap_keys(x) for x in kv]
+        return None if kv is None else rng.choice([k for k in KEY_VALUES if k != kv])
+    donors = [n for n in m if "key_value" in m[n] and any(k is not None for k in _flat(m[n]["key_value"]))]
+    if donors and len(m) >= 2 and rng.random() < 0.5:
+        src = rng.choice(donors)
+        dst = rng.choice([n for n in m if n != src])
+        if m[dst].get("value_type") == m[src].get("value_type"):
+            twin = _copy.deepcopy(m[src])
+            twin["key_value"] = swap_keys(twin["key_value"])
+            m[dst] = twin
     return m
+
+
+def _flat(x):
+    if isinstance(x, list):
+        for y in x:
+            yield from _flat(y)
+    else:
+        yield x
 
 
 # ---------------------------------------------------------------- documents
